@@ -1291,7 +1291,14 @@ static const CFun CFUNS[] = {
     { "c.real", 2, 0, 0, [](cld a, cld, cld, long double) { return cld(a.real(), 0); } },
     { "c.imag", 2, 0, 0, [](cld a, cld, cld, long double) { return cld(a.imag(), 0); } },
     { "c.conj", 0, 0, 0, [](cld a, cld, cld, long double) { return std::conj(a); } },
-    { "c.proj", 0, 0, 0, [](cld a, cld, cld, long double) { return a; } }, // finite operands: the identity
+    { "c.proj", 0, 0, 0, [](cld a, cld, cld, long double) { return (std::isinf(a.real()) || std::isinf(a.imag())) ? cld(std::numeric_limits<long double>::infinity(), copysignl(0.0L, a.imag())) : a; } }, // std::proj
+    // real-batch overloads: the operand is the real part alone (imaginary part +0)
+    { "c.real.realarg", 2, 0, 0, [](cld a, cld, cld, long double) { return cld(a.real(), 0); } },
+    { "c.imag.realarg", 2, 0, 0, [](cld, cld, cld, long double) { return cld(0, 0); } },
+    { "c.conj.realarg", 0, 8, 0, [](cld a, cld, cld, long double) { return cld(a.real(), 0); } }, // the zero imaginary part may carry either sign
+    { "c.proj.realarg", 0, 8, 0, [](cld a, cld, cld, long double) { return cld(std::isinf(a.real()) ? std::numeric_limits<long double>::infinity() : a.real(), 0); } },
+    { "c.norm.realarg", 2, 32, 1, [](cld a, cld, cld, long double) { return cld(a.real() * a.real(), 0); } },
+    { "c.arg.realarg", 2, 32, 0, [](cld a, cld, cld, long double) { return cld(std::signbit(a.real()) ? 3.14159265358979323846264338327950288L : 0.0L, 0); } },
     { "c.norm", 2, 32, 1, [](cld a, cld, cld, long double) { return cld(std::norm(a), 0); } },
     { "c.abs", 2, 32, 0, [](cld a, cld, cld, long double) { return cld(std::abs(a), 0); } },
     { "c.arg", 2, 32, 0, [](cld a, cld, cld, long double) { return cld(std::arg(a), 0); } },
@@ -1392,6 +1399,27 @@ static std::vector<std::pair<T, T>> cgrid(int kstep, int nang, uint64_t seed, bo
     return g;
 }
 
+// full-range operands for the exact operations (neg, real, imag, conj, proj, ==, !=): every pair of components from
+// {0, denorm_min, MIN, 1, 1.5, just above sqrt(MAX), MAX/2, MAX, inf} with both signs - finite values whose squared
+// modulus overflows or underflows, and infinite components (proj is defined by them)
+template <class T>
+static std::vector<std::pair<T, T>> cextreme()
+{
+    std::vector<T> A;
+    const int h = std::numeric_limits<T>::max_exponent / 2;
+    for (T v : { (T)0, std::numeric_limits<T>::denorm_min(), std::numeric_limits<T>::min(), (T)1, (T)1.5, (T)std::ldexp((T)1, h + 1), (T)std::ldexp((T)1.25, h + 2),
+                 (T)std::ldexp((T)1.75, -h - 2), std::numeric_limits<T>::max() / 2, std::numeric_limits<T>::max(), std::numeric_limits<T>::infinity() })
+    {
+        A.push_back(v);
+        A.push_back(-v);
+    }
+    std::vector<std::pair<T, T>> g;
+    for (T a : A)
+        for (T b : A)
+            g.push_back({ a, b });
+    return g;
+}
+
 template <class T>
 void MathExplorer::run_complex()
 {
@@ -1442,6 +1470,25 @@ void MathExplorer::run_complex()
         if (f.kind == 3) // equality: add identical pairs
             for (auto& z : G1)
                 tups.push_back({ z.first, z.second, z.first, z.second, 0, 0 });
+        const bool exact_fn = f.eps_mult == 0 && f.rule == 0;
+        if (exact_fn)
+        {
+            const auto GX = cextreme<T>();
+            for (size_t i = 0; i < GX.size(); ++i)
+            {
+                const auto& z = GX[i];
+                if (f.kind == 3)
+                {
+                    const auto& u = GX[(i + 1) % GX.size()];
+                    const auto& w = GX[(i + 22) % GX.size()];
+                    tups.push_back({ z.first, z.second, z.first, z.second, 0, 0 });
+                    tups.push_back({ z.first, z.second, z.first, u.second, 0, 0 }); // the imaginary parts differ (or are the two zeros)
+                    tups.push_back({ z.first, z.second, w.first, z.second, 0, 0 }); // the real parts differ (or are the two zeros)
+                }
+                else
+                    tups.push_back({ z.first, z.second, 0, 0, 0, 0 });
+            }
+        }
         while (tups.size() % 64)
             tups.push_back(tups[tups.size() % 7]);
         const size_t N = tups.size();
@@ -1486,6 +1533,8 @@ void MathExplorer::run_complex()
                     a = cld(t.a0, 0);
                 if (!strcmp(f.name, "c.selffma"))
                     b = c = a; // the same object in every argument slot
+                if (strstr(f.name, ".realarg"))
+                    a = cld(a.real(), 0); // the overloads for real batches see the real part only
                 if (strstr(f.name, ".real"))
                     b = cld(b.real(), 0); // only the real part of the second operand takes part: the range premise is about it
                 auto inrange = [&](cld z)
@@ -1507,12 +1556,12 @@ void MathExplorer::run_complex()
                     continue;
                 if (fname == "c.pow" && std::abs(a) == 0)
                     continue;
-                if ((fname == "c.log" || fname == "c.log2" || fname == "c.log10" || fname == "c.arg") && std::abs(a) == 0)
+                if ((fname == "c.log" || fname == "c.log2" || fname == "c.log10" || fname == "c.arg" || fname == "c.arg.realarg") && std::abs(a) == 0)
                     continue;
                 cld w = f.ref(a, b, c, y);
                 const long double mw = std::abs(w);
-                if (!(std::isfinite((double)w.real()) && std::isfinite((double)w.imag())) || mw > MAX / 4)
-                    continue;
+                if (!exact_fn && (!(std::isfinite((double)w.real()) && std::isfinite((double)w.imag())) || mw > MAX / 4))
+                    continue; // (the exact operations are judged on the whole range, infinite components included)
                 if (f.rule == 4 && fmaxl(fabsl(a.real()), fabsl(a.imag())) > (std::is_same<T, float>::value ? 80 : 700))
                     continue;
                 W[e] = w;
@@ -1541,6 +1590,8 @@ void MathExplorer::run_complex()
                         a = cld(t.a0, 0);
                     if (!strcmp(f.name, "c.selffma"))
                         b = c = a;
+                    if (strstr(f.name, ".realarg"))
+                        a = cld(a.real(), 0);
                     if (!use[e])
                         continue;
                     const cld w = W[e], w2 = W2[e];
@@ -1565,7 +1616,7 @@ void MathExplorer::run_complex()
                         }
                         if (f.rule == 3)
                             scale = fmaxl(mw, fmaxl(std::abs(a) * std::abs(b), std::abs(c)));
-                        if (scale < MIN * 16)
+                        if (!exact_fn && scale < MIN * 16)
                             continue; // result in the subnormal range: outside the claim
                         long double tol = f.eps_mult * EPS * scale;
                         long double ore = out[0][e], oim = (f.kind == 2) ? 0 : (long double)out[1][e];
